@@ -479,8 +479,10 @@ class Exec:
                 return [st]
         for rx, h in self.summaries:
             if re.search(rx, func):
-                self.used_summaries[getattr(h, '__name__', 'summary') + ' <- ' + short(func)] = True
                 outs = h(self, st, func, args, dest_ty)
+                if outs is None:
+                    continue
+                self.used_summaries[getattr(h, '__name__', 'summary') + ' <- ' + short(func)] = True
                 res = []
                 for s2, v in outs:
                     if t.data['target'] is None:
@@ -593,7 +595,22 @@ def sum_identity_deref(ex, st, func, args, dest_ty):
         return [(st, RefV(sp.oid, 'inner'))]
     return [(st, sp)]
 
+def sum_fieldless_eq(ex, st, func, args, dest_ty):
+    """derived PartialEq::eq / ne on a field-less enum: equality of discriminants"""
+    from . import srcdefs
+    m = re.match(r'^<&?(?:[\w]+::)*(\w+) as PartialEq>::(eq|ne)$', func)
+    if not m or m.group(1) not in srcdefs.FIELDLESS:
+        return None
+    def tgt(v):
+        while isinstance(v, RefV):
+            v = st.heap[v.oid][v.key]
+        return v
+    a, b = tgt(args[0]), tgt(args[1])
+    e = ex.discr(st, a).t == ex.discr(st, b).t
+    return [(st, BoolV(e if m.group(2) == 'eq' else z3.Not(e)))]
+
 GENERIC = [
+    (r' as PartialEq>::(eq|ne)$', sum_fieldless_eq),
     (r' as Try>::branch$', sum_try_branch),
     (r' as FromResidual<.*>>::from_residual$', sum_from_residual),
     (r' as Deref>::deref$| as DerefMut>::deref_mut$', sum_identity_deref),
